@@ -1,4 +1,5 @@
 import LasioProofs.Lemmas.DataWriteLemmas
+import LasioProofs.Lemmas.RoundTripData
 /-
 C01 — Numeric curve data survives write->read within the printed precision (WRITER half, token level).
 
@@ -196,6 +197,157 @@ example : dataLines ⟨true, "%.1f".toList, [], none, [' '], [' '], 12, 20, "~A"
     = some ["~A -----------------".toList, "        1.0".toList, "-999.25".toList, "        2.0".toList, "1.0".toList] := by
   decide
 
+/-! ### write -> read: the reader model (`LasioModel/Data.lean`, namespace `Dt`) inverts the writer model
+
+Bridge lemmas in `Lemmas/RoundTripData.lean` (namespace `Rt`).  `Rt.tokenRows c null rows` is the r × n matrix of written
+tokens (`C01_token_matrix`); `Rt.Written cfg null mn rows c n hdr body` bundles the hypotheses of the round trip
+(`C01_written` builds it from them); `eol` is any whitespace line end (`""`, `"\n"`, `"\r\n"`) appended to the written lines. -/
+
+/-- **The two models tokenise alike and the read substitutions are silent on written text.**
+1. `str.split()` is modelled twice (`Dt.pySplit` in the genfromtxt specification, `tokensWs` here): equal on every string.
+2. The reader's whitespace splitter (`sow_regex.findall`, groups joined) is `str.split()` on every line without `"` and `'`.
+3. A printed finite sample is in the plain decimal grammar, is a quiet token, and every subset of the read substitutions is
+   the identity on it.
+4. On ANY line whose `str.split()` tokens are quiet tokens (tokens separated by at least one whitespace character, which is
+   what the non-empty spacer of `CfgOK` gives, `C01_row_tokens`): every subset of the read substitutions leaves the WHOLE line
+   unchanged — the comma pattern needs a `,`, the run-on-dot pattern two dots in one token, and the run-on-hyphen pattern
+   `(\d)-(\d)` a digit immediately followed by `-`, which does not occur: a `-` only stands first in a token and the character
+   before a token is whitespace — and the normal engine's items, the raw splitter and genfromtxt's tokens are the
+   `str.split()` tokens.  Since this holds with and without the hyphen substitution, the sniffer's hyphen recommendation
+   (which only removes that substitution) is harmless. -/
+theorem C01_tokens_bridge :
+    (∀ l : Str, Dt.pySplit l = tokensWs l) ∧
+    (∀ l : Str, (∀ x ∈ l, x ≠ '"' ∧ x ≠ '\'') → Dt.splitWs l = tokensWs l) ∧
+    (∀ N neg m e, Dt.isPlainDecimal (fmtFixed N (.finite neg m e)) = true ∧ Dt.QuietTok (fmtFixed N (.finite neg m e)) ∧
+      ∀ sb, Dt.applySubs sb (fmtFixed N (.finite neg m e)) = fmtFixed N (.finite neg m e)) ∧
+    (∀ l : Str, (∀ t ∈ tokensWs l, Dt.QuietTok t) → ∀ sb,
+      Dt.applySubs sb l = l ∧ Dt.splitWs l = tokensWs l ∧ Dt.lineTokens sb .space l = tokensWs l ∧
+      Dt.npTokens l = tokensWs l) :=
+  ⟨Rt.pySplit_eq_tokensWs, Rt.splitWs_eq_tokensWs_noquote,
+   fun N neg m e => ⟨Rt.fmtFixed_isPlainDecimal N neg m e, Rt.quiet_fmtFixed_finite N neg m e,
+     fun sb => Dt.applySubs_core sb (Dt.Core.one (Rt.quiet_fmtFixed_finite N neg m e))⟩,
+   fun l hq sb => ⟨Rt.applySubs_line sb l hq, Rt.splitWs_eq_tokensWs l hq, Rt.lineTokens_eq_tokensWs sb l hq,
+     Rt.npTokens_eq_tokensWs l hq⟩⟩
+
+/-- every cell token (NULL text, `%.Nf` of a finite value, `inf`, `-inf`) is quiet when the NULL text is; a NULL text in the
+plain decimal grammar (`-999.25`, `-9999`, …) is -/
+theorem C01_cell_token_quiet (null : Str) (f : Fmt) (x : F64) :
+    (Dt.isPlainDecimal null = true → Dt.QuietTok null) ∧ (Dt.QuietTok null → Dt.QuietTok (cellToken null f x)) :=
+  ⟨fun h => Dt.quietTok_of_simple null (Dt.simplePlain_of_grammar null h), fun h => Rt.quiet_cellToken null h f x⟩
+
+/-- the matrix of written tokens: entry (i, j) is the NULL text when cell (i, j) is NaN, else `'%.Nf' % cell` with the
+precision of column j -/
+theorem C01_token_matrix (c : RowCfg) (null : Str) (rows : List (List F64)) :
+    Rt.tokenRows c null rows = rows.map (fun row => row.mapIdx (fun j x => cellToken null (c.colFmt j) x)) ∧
+    ∀ f x, cellToken null f x = if x.isNaN then null else fmtFixed f.prec x := by
+  refine ⟨?_, fun _ _ => rfl⟩
+  unfold Rt.tokenRows
+  apply List.map_congr_left
+  intro r _
+  exact Rt.rowTokens_eq_mapIdx c null r
+
+/-- the hypotheses of the round trip: a supported configuration (`CfgOK`), a quiet NULL text, `dataLines` succeeded with
+`hdr :: body`, the cells form a non-empty r × n matrix (n ≥ 1) -/
+theorem C01_written (cfg : DataCfg) (null : Str) (mn : List Str) (rows : List (List F64)) (c : RowCfg) (n : Nat)
+    (hdr : Str) (body : List Str) (hc : cfg.rowCfg = some c) (hok : CfgOK c null) (hq : Dt.QuietTok null)
+    (h : dataLines cfg null mn rows = some (hdr :: body)) (hr : rows ≠ []) (hn : 0 < n) (hrect : ∀ r ∈ rows, r.length = n) :
+    Rt.Written cfg null mn rows c n hdr body := ⟨hc, hok, hq, h, hr, hn, hrect⟩
+
+/-- every written body line satisfies the condition of `C01_tokens_bridge` (4) -/
+theorem C01_written_lines_quiet {cfg : DataCfg} {null : Str} {mn : List Str} {rows : List (List F64)} {c : RowCfg} {n : Nat}
+    {hdr : Str} {body : List Str} (w : Rt.Written cfg null mn rows c n hdr body) :
+    ∀ l ∈ body, ∀ t ∈ tokensWs l, Dt.QuietTok t :=
+  Rt.body_tokens_quiet w.ok w.nullQuiet _ _ rows body w.body_eq
+
+/-- **write -> read, normal engine** (any F64 cells, any supported formats, wrapped or not, any active substitutions):
+reading the written body with `n_columns = n` returns exactly the matrix of written tokens, column by column (a column is
+`floats` when all its tokens convert, `text` otherwise). -/
+theorem C01_roundtrip_normal (cfg : DataCfg) (null : Str) (mn : List Str) (rows : List (List F64)) (c : RowCfg) (n : Nat)
+    (hdr : Str) (body : List Str) (hc : cfg.rowCfg = some c) (hok : CfgOK c null) (hq : Dt.QuietTok null)
+    (h : dataLines cfg null mn rows = some (hdr :: body)) (hr : rows ≠ []) (hn : 0 < n) (hrect : ∀ r ∈ rows, r.length = n)
+    (ft : Dt.FloatTable) (sb : Dt.Subs) (eol : Str) (heol : Dt.AllWs eol) :
+    Dt.normalEngineLines ft sb .space n (body.map (· ++ eol)) =
+      .ok (Dt.matrixColumns ft n (rows.map (fun row => row.mapIdx (fun j x => cellToken null (c.colFmt j) x)))) := by
+  rw [← (C01_token_matrix c null rows).1]
+  exact Rt.roundtrip_normal (C01_written cfg null mn rows c n hdr body hc hok hq h hr hn hrect) ft sb eol heol
+
+/-- the flat item list of the normal engine is the row-major flattening of the token matrix (wrapped or not) -/
+theorem C01_roundtrip_items {cfg : DataCfg} {null : Str} {mn : List Str} {rows : List (List F64)} {c : RowCfg} {n : Nat}
+    {hdr : Str} {body : List Str} (w : Rt.Written cfg null mn rows c n hdr body) (sb : Dt.Subs) (eol : Str)
+    (heol : Dt.AllWs eol) :
+    Dt.normalTokens sb .space (body.map (· ++ eol)) = (Rt.tokenRows c null rows).flatten :=
+  Rt.normalTokens_written w sb eol heol
+
+/-- **unwrapped output**: one data line of `n` quiet tokens per row (a plain data section in the sense of C02), and the
+sniffer (`inspect_data_section`) counts `n` columns whichever substitutions are active -/
+theorem C01_roundtrip_sniff {cfg : DataCfg} {null : Str} {mn : List Str} {rows : List (List F64)} {c : RowCfg} {n : Nat}
+    {hdr : Str} {body : List Str} (w : Rt.Written cfg null mn rows c n hdr body) (hwrap : cfg.wrap = false)
+    (sb : Dt.Subs) (eol : Str) (heol : Dt.AllWs eol) (pre : List Str) (title : Str) (after : List Str) :
+    Dt.Body n (body.map (· ++ eol)) (Rt.tokenRows c null rows) ∧ (body.map (· ++ eol)).length = rows.length ∧
+    (Dt.sniffColumns sb .space (pre ++ title :: (body.map (· ++ eol) ++ after)) pre.length
+      (pre.length + (body.map (· ++ eol)).length)).count = some n :=
+  ⟨(w.body_plain hwrap eol heol).1, (w.body_plain hwrap eol heol).2, Rt.roundtrip_sniff w hwrap sb eol heol pre title after⟩
+
+/-- **write -> read, genfromtxt specification** (unwrapped output; every written token a number for `float()`; after the
+section nothing, or a line whose first token is not a number): the same columns as the normal engine -/
+theorem C01_roundtrip_numpy {cfg : DataCfg} {null : Str} {mn : List Str} {rows : List (List F64)} {c : RowCfg} {n : Nat}
+    {hdr : Str} {body : List Str} (w : Rt.Written cfg null mn rows c n hdr body) (hwrap : cfg.wrap = false)
+    (ft : Dt.FloatTable) (hnum : Dt.Numeric ft (Rt.tokenRows c null rows)) (eol : Str) (heol : Dt.AllWs eol)
+    (after : List Str)
+    (hnext : after = [] ∨ ∃ ln rest t ts, after = ln :: rest ∧ Dt.npTokens ln = t :: ts ∧ Dt.toFloat ft t = none) :
+    Dt.numpyEngineLines ft (body.map (· ++ eol)).length (body.map (· ++ eol) ++ after) =
+      some (Dt.matrixColumns ft n (Rt.tokenRows c null rows)) :=
+  Rt.roundtrip_numpy w hwrap ft hnum eol heol after hnext
+
+/-- **through `readData`, WRAP = YES declared** (file written with any `wrap`), `n` declared curves: the normal engine runs
+with `n_columns = n` and the curves are those of the written matrix (`Rt.curvesOf` = `assignCurves` of `applyNull` of it) -/
+theorem C01_roundtrip_read_wrapYes {cfg : DataCfg} {null : Str} {mn : List Str} {rows : List (List F64)} {c : RowCfg} {n : Nat}
+    {hdr : Str} {body : List Str} (w : Rt.Written cfg null mn rows c n hdr body) (e : Dt.Engine) (p : Dt.NullPolicy)
+    (st : Dt.Steer) (ft : Dt.FloatTable) (eol : Str) (heol : Dt.AllWs eol) (pre : List Str) (title : Str) (after : List Str)
+    (hdlm : st.delimiter = .space) (hwd : st.wrapDeclared = true) (hwy : st.wrapped = Dt.yesTxt) :
+    Dt.readData ⟨e, p⟩ (pre ++ title :: (body.map (· ++ eol) ++ after)) pre.length
+        (pre.length + (body.map (· ++ eol)).length) st n ft =
+      .ok (.normal, Dt.assignCurves n (Dt.applyNull (p == .strict) st.nullValue
+        (Dt.matrixColumns ft n (Rt.tokenRows c null rows)))) :=
+  Rt.readData_wrapYes w e p st ft eol heol pre title after hdlm hwd hwy
+
+/-- **through `readData`, file written with `wrap=False`, WRAP ≠ YES**, any engine, any null policy, any number `d` of declared
+curves: the sniffer finds `n`, and the curves are those of the written matrix (fast engine and fallback agree) -/
+theorem C01_roundtrip_read_unwrapped {cfg : DataCfg} {null : Str} {mn : List Str} {rows : List (List F64)} {c : RowCfg}
+    {n : Nat} {hdr : Str} {body : List Str} (w : Rt.Written cfg null mn rows c n hdr body) (hwrap : cfg.wrap = false)
+    (e : Dt.Engine) (p : Dt.NullPolicy) (st : Dt.Steer) (d : Nat) (ft : Dt.FloatTable) (eol : Str) (heol : Dt.AllWs eol)
+    (pre : List Str) (title : Str) (after : List Str)
+    (hdlm : st.delimiter = .space) (hw : st.wrapped ≠ Dt.yesTxt)
+    (hnext : after = [] ∨ ∃ ln rest t ts, after = ln :: rest ∧ Dt.npTokens ln = t :: ts ∧ Dt.toFloat ft t = none) :
+    (Dt.readData ⟨e, p⟩ (pre ++ title :: (body.map (· ++ eol) ++ after)) pre.length
+        (pre.length + (body.map (· ++ eol)).length) st d ft).map Prod.snd =
+      .ok (Dt.assignCurves d (Dt.applyNull (p == .strict) st.nullValue
+        (Dt.matrixColumns ft n (Rt.tokenRows c null rows)))) :=
+  Rt.readData_unwrapped w hwrap e p st d ft eol heol pre title after hdlm hw hnext
+
+/-- COUNTER-EXAMPLE (the NULL text must be a quiet token; `CfgOK` only asks for a whitespace-free one): with `NULL = -999,25`
+the written line `1.0 -999,25` tokenises to the NULL text, but the reader's comma-decimal substitution turns it into `-999.25` -/
+theorem C01_roundtrip_needs_quiet_null :
+    tokensWs "1.0 -999,25".toList = ["1.0".toList, "-999,25".toList] ∧
+    Dt.lineTokens Dt.Subs.default .space "1.0 -999,25".toList = ["1.0".toList, "-999.25".toList] := by decide
+
+/-- COUNTER-EXAMPLE (`rows ≠ []` is needed): without data rows the body is empty and the normal engine returns no column at
+all, not `n` empty columns -/
+theorem C01_roundtrip_needs_rows (ft : Dt.FloatTable) (sb : Dt.Subs) :
+    Dt.normalEngineLines ft sb .space 1 [] = .ok [] ∧ Dt.matrixColumns ft 1 [] = [.floats []] := ⟨rfl, rfl⟩
+
+/-- non-vacuity of the round trip: the wrapped example below satisfies `Rt.Written`, and reading its body back gives the
+two columns of tokens -/
+theorem C01_roundtrip_example :
+    Rt.Written ⟨true, "%.1f".toList, [], none, [' '], [' '], 12, 20, "~A".toList, false⟩ nullTxt
+      ["DEPT".toList, "A".toList] [[one, .nan], [two, one]] ⟨⟨none, 1⟩, [], 10, [' '], [' ']⟩ 2
+      "~A -----------------".toList ["        1.0".toList, "-999.25".toList, "        2.0".toList, "1.0".toList] ∧
+    Dt.normalEngineLines [] Dt.Subs.default .space 2
+        (["        1.0".toList, "-999.25".toList, "        2.0".toList, "1.0".toList].map (· ++ ['\n'])) =
+      .ok [.text ["1.0".toList, "2.0".toList], .text ["-999.25".toList, "1.0".toList]] := by
+  refine ⟨⟨by rfl, ⟨by decide, by decide, by decide, ⟨by decide, by decide⟩⟩, Rt.quietTok_of_check _ (by decide),
+    by decide, by decide, by decide, by decide⟩, by rfl⟩
+
 #print axioms C01_value
 #print axioms C01_plain_token
 #print axioms C01_row_tokens
@@ -203,5 +355,19 @@ example : dataLines ⟨true, "%.1f".toList, [], none, [' '], [' '], 12, 20, "~A"
 #print axioms C01_wrap_nonempty_lines
 #print axioms C01_fmt_stable
 #print axioms C01_lines_tokens
+#print axioms C01_tokens_bridge
+#print axioms C01_cell_token_quiet
+#print axioms C01_token_matrix
+#print axioms C01_written
+#print axioms C01_written_lines_quiet
+#print axioms C01_roundtrip_normal
+#print axioms C01_roundtrip_items
+#print axioms C01_roundtrip_sniff
+#print axioms C01_roundtrip_numpy
+#print axioms C01_roundtrip_read_wrapYes
+#print axioms C01_roundtrip_read_unwrapped
+#print axioms C01_roundtrip_needs_quiet_null
+#print axioms C01_roundtrip_needs_rows
+#print axioms C01_roundtrip_example
 
 end Lasio.Dw
